@@ -268,6 +268,8 @@ func reproduced(rc *replayCase) bool {
 		return o == "ASSERT-FAILED "+rc.Label || (strings.HasPrefix(o, "ASSERT-FAILED") && strings.HasPrefix(rc.Label, strings.TrimPrefix(o, "ASSERT-FAILED ")))
 	case "unwind", "hang":
 		return o == "HANG"
+	case "witness":
+		return o == "OK"
 	}
 	return false
 }
@@ -385,6 +387,18 @@ func check(c *runCfg) int {
 			samples = append(samples, s)
 		}
 	}
+	// translator validation: one witness model per harness (a completed path) is replayed natively; the native run
+	// must also complete without a failed assumption or assertion.
+	var witnesses []*replayCase
+	for _, r := range results {
+		if r.SampleModel != nil && len(witnesses) < 60 && harnessPkg[r.Name] != nil {
+			w := &replayCase{Harness: r.Name, Model: r.SampleModel, Kind: "witness", Label: "witness", Pkg: harnessPkg[r.Name].Pkg.Path()}
+			witnesses = append(witnesses, w)
+		}
+	}
+	if !c.noReplay {
+		cases = append(cases, witnesses...)
+	}
 	if !c.noReplay {
 		if err := replay(c, l, ov, cases, harnessPkg); err != nil {
 			fmt.Fprintln(os.Stderr, "symgo: replay failed:", err)
@@ -437,6 +451,17 @@ func check(c *runCfg) int {
 			exit = 1
 		}
 	}
+	nwit := 0
+	for _, w := range witnesses {
+		if c.noReplay {
+			break
+		}
+		if w.Reproduced {
+			nwit++
+		} else if !hasKnownViolation(results, w.Harness) {
+			inconcl = append(inconcl, fmt.Sprintf("%s: witness model of a completed symbolic path does not complete natively (%s): engine and native execution diverge", w.Harness, w.Outcome))
+		}
+	}
 	for _, s := range inconcl {
 		fmt.Printf("INCONCLUSIVE property=%s %s\n", c.prop, s)
 	}
@@ -476,6 +501,7 @@ func check(c *runCfg) int {
 		"states":                        maxI(int(st.Paths), 1),
 		"transitions":                   maxI(int(st.Steps), 1),
 		"traces_validated_against_impl": len(cases),
+		"witness_paths_replayed_natively_ok": nwit,
 		"samples":                       samplesOrDefault(samples, hn),
 		"evaluations":                   int(st.Proved + st.Violated + st.Inconclusive),
 		"distinct_nontrivial":           nontrivial,
@@ -658,4 +684,19 @@ func constLabels(fn *ssa.Function) []string {
 	}
 	visit(fn)
 	return out
+}
+
+// hasKnownViolation: a harness with a reported violation may legitimately fail natively on its witness too.
+func hasKnownViolation(results []*sym.HarnessResult, name string) bool {
+	for _, r := range results {
+		if r.Name != name {
+			continue
+		}
+		for _, rep := range r.Reports {
+			if rep.Status == "violated" {
+				return true
+			}
+		}
+	}
+	return false
 }
